@@ -268,3 +268,51 @@ func vfhC07Decimals() {
 	}
 	vfReach("end")
 }
+
+func init() {
+	vfHarnesses["C07_precision_grid"] = vfhC07PrecisionGrid
+}
+
+// Every admissible combination of XY, Z and M precision (the extended
+// precision byte carries Z and M in 3 bits each) on a ZM line whose Z are
+// halves and M are quarters: exact at Z precision >= 1 and M precision >= 2.
+func vfhC07PrecisionGrid() {
+	precXY := []int{0, 1, 5, 7}[vfInt("precision-xy", 0, 3)]
+	precZ := []int{1, 2, 3, 4, 5, 6, 7}[vfInt("precision-z", 0, 6)]
+	precM := []int{2, 3, 4, 5, 6, 7}[vfInt("precision-m", 0, 5)]
+	var wkt string
+	switch vfInt("case", 0, 2) {
+	case 0:
+		wkt = "LINESTRING ZM(1 2 0.5 0.25,3 5 -1.5 0.75,4 4 2.5 -1.25)"
+	case 1:
+		wkt = "GEOMETRYCOLLECTION ZM(POINT ZM(7 8 1.5 2.25),POLYGON ZM((0 0 0.5 0.25,4 0 1.5 0.5,0 4 -0.5 0.75,0 0 0.5 0.25)))"
+	default:
+		wkt = "MULTIPOINT Z(1 1 0.5,2 3 -2.5)"
+	}
+	g, err := UnmarshalWKT(wkt)
+	vfAssert(err == nil, "source parses")
+	sizeHdr, bbox := vfBool("size"), vfBool("bbox")
+	twkb, err := MarshalTWKB(g, precXY, vfOpts(sizeHdr, bbox, false, precZ, precM, nil)...)
+	vfAssert(err == nil, "marshal succeeds")
+	back, err := UnmarshalTWKB(twkb)
+	vfAssert(err == nil, "unmarshal succeeds")
+	vfAssert(ExactEquals(back, g), "ordinates on the grid of each precision come back exactly, Z and M included")
+	if bbox {
+		env, has, err := UnmarshalTWKBEnvelope(twkb)
+		vfAssert(err == nil && has && env.XYEnvelope == g.Envelope(), "bbox header is the envelope")
+		seq := g.DumpCoordinates()
+		zlo, zhi := seq.Get(0).Z, seq.Get(0).Z
+		for i := 1; i < seq.Length(); i++ {
+			z := seq.Get(i).Z
+			if z < zlo {
+				zlo = z
+			}
+			if z > zhi {
+				zhi = z
+			}
+		}
+		za, zb, zok := env.ZRange.MinMax()
+		vfAssert(zok && za == zlo && zb == zhi, "the Z range of the header is that of the control points")
+	}
+	vfReach("end")
+}
